@@ -11,7 +11,7 @@ def config(quick):
     opt = lambda k, a, b=0: dict(k=k, a=a, b=b)
     sa = {"Level": [(2, 0)], "Skip": [(1, 0), (2, 0)], "Writer": [(1, 0)]}
     if not quick:
-        sa.update({"Level": [(2, 0), (7, 0)], "JSONMode": [(1, 0)], "ColorMode": [(3, 0)], "ErrorWriter": [(2, 0)]})
+        sa.update({"Level": [(2, 0), (7, 0)], "JSONMode": [(1, 0)]})
     return dict(
         max_loggers=2, init_level=5, names=["a"], bool_lists=BOOL_LISTS, layouts=[""],
         opt_lists=[[], [opt("Level", 2)], [opt("JSONMode", 1), opt("Attrs", 2, 7)], [opt("Writer", 1)]],
@@ -28,7 +28,7 @@ def config_attrs(quick):
     return dict(
         max_loggers=2, init_level=5, names=["a"], bool_lists=BOOL_LISTS, layouts=[""],
         opt_lists=[[], [opt("Attrs1", 2, 1)], [opt("SetKV", 1, 3), opt("Attrs", 1, 1)], [opt("Attrs1", 2, 1), opt("Attrs1", 2, 1)]],
-        setter_args=sa, acts=["Set", "With", "New"], probe_sevs=[4], max_list=2 if quick else 3,
+        setter_args=sa, acts=["Set", "With", "New"], probe_sevs=[4], max_list=2,
     )
 
 
